@@ -163,82 +163,129 @@ def conversion(body):
     return d
 
 
+def variant_of_self(x, ps):
+    """-> (variant name or None, set of excluded variant names)"""
+    pos = None
+    neg = set()
+    for c in x.conds:
+        if c[0] == "is" and c[1] == ("param", "self") and c[2].startswith(V):
+            if c[3]:
+                pos = c[2][len(V):]
+            else:
+                neg.add(c[2][len(V):])
+    return pos, neg
+
+
+def has_cast(t):
+    return any(isinstance(u, tuple) and u and u[0] == "cast" for u in pathsum.subterms(t))
+
+
+def conv_paths(ck, lib, b):
+    ex, ps = ctx.summarize(lib, b["def"], ck)
+    return ex, ps
+
+
+def judge_numeric_impl(ck, lib, b, t, table, callee_of, rid_prefix):
+    """table: variant -> expected extra literal argument (radix) or None; callee_of(t) -> expected callee."""
+    ex, ps = conv_paths(ck, lib, b)
+    seen = {}
+    for i, x in enumerate(ex):
+        v, neg = variant_of_self(x, ps)
+        calls = [e for e in x.effects if e[0] == "call"]
+        val = x.value
+        key = "%s:%s:%s" % (rid_prefix, t, v or "other")
+        if v in table:
+            want_callee = callee_of(t)
+            data = ("payload", ("param", "self"), V + v, 0)
+            conv = [e for e in calls if e[1] == want_callee]
+            other = [e for e in calls if e[1] != want_callee]
+            ok = len(conv) == 1 and not other and conv[0][2][0] == data and (table[v] is None or conv[0][2][1:] == (("lit", "int", table[v]),))
+            why = ""
+            if ok:
+                ct = ("call",) + conv[0][1:]
+                d = ps.decided(St(x.conds), ct, OK)
+                if d is True:
+                    ok = val == ("ctor", OK, (("payload", ct, OK, 0),)) and not has_cast(val)
+                    why = "success delivers %s" % show_term(val)
+                elif d is False:
+                    ok = val == ("ctor", ERR, (("ctor", E + "NumericDataError", ()),))
+                    why = "failure reported as %s" % show_term(val)
+                else:
+                    ok = val == ct and False
+                    why = "the conversion's result is passed on unmapped"
+            else:
+                why = "calls %s" % [(e[1], [show_term(a) for a in e[2]]) for e in calls]
+            seen.setdefault(v, []).append(ok)
+            ck.judge(ok, "C03-V", key + "#%d" % i, "%s -> %s(text%s); Ok delivered as is, failure -> NumericDataError" % (v, want_callee.split("::", 2)[-1], ", %s" % table[v] if table[v] else ""),
+                     "%s arm of TryInto<%s>: %s (expected exactly %s on the variant's own text%s, failure -> NumericDataError, no cast)" % (v, t, why, want_callee, " with radix %s" % table[v] if table[v] else ""),
+                     data=pathsum.show_exit(x)[:800])
+        else:
+            ok = not calls and val == ("ctor", ERR, (("ctor", E + "DataTypeError", ()),))
+            ck.judge(ok, "C03-V", key + "#%d" % i, "%s -> DataTypeError" % (v or "any other kind"),
+                     "TryInto<%s> for %s: %s %s (expected Err(DataTypeError) and no conversion)" % (t, v or "the remaining kinds", [e[1] for e in calls], show_term(val)), data=pathsum.show_exit(x)[:800])
+    ck.judge(set(seen) == set(table), "C03-V", "%s:%s:coverage" % (rid_prefix, t), "handles %s" % sorted(table), "TryInto<%s> converts %s, expected exactly %s" % (t, sorted(seen), sorted(table)))
+
+
 def rule_V(ck, lib):
     n = 0
     for t in INTS:
         b = impl_fn(lib, "&microscpi::value::Value<>", t) or impl_fn(lib, "&microscpi::value::Value", t)
         if not ck.anchor("C03-V", "TryInto<%s> for &Value" % t, b):
             continue
-        ck.fn(b["def"])
-        arms, wild = arms_of(b)
-        if not ck.anchor("C03-V", "match in TryInto<%s>" % t, arms):
-            continue
         n += 1
-        seen = {}
-        for alts, body in arms:
-            c = conversion(body)
-            for (name, sub) in alts:
-                key = "int:%s:%s" % (t, name)
-                if name not in RADIX:
-                    ck.bad("C03-V", key, "variant %s is converted to the integer type %s (only the four numeric notations may be): %s" % (name, t, c), hir.loc(body))
-                    continue
-                ok = (c.get("kind") == "radix" and c["ty"] == t and c["radix"] == RADIX[name] and sub and sub[0] == "bind" and c["arg"] == sub[1]
-                      and c["fail"] == "NumericDataError" and c["casts"] == 0)
-                seen[name] = True
-                ck.judge(ok, "C03-V", key, "%s -> %s::from_str_radix(text, %d), failure -> NumericDataError" % (name, t, RADIX[name]),
-                         "%s arm of TryInto<%s>: %s (expected %s::from_str_radix(<the variant's text>, %d) with failure -> NumericDataError and no cast)" % (name, t, {k: v for k, v in c.items()}, t, RADIX[name]), hir.loc(body))
-        ck.judge(set(seen) == set(RADIX), "C03-V", "int:%s:coverage" % t, "all four notations handled", "TryInto<%s> handles %s of Decimal/Hexadecimal/Binary/Octal" % (t, sorted(seen)))
-        ck.judge(wild is not None and err_ctor(wild) == "DataTypeError", "C03-V", "int:%s:default" % t, "other kinds -> DataTypeError", "default arm of TryInto<%s> is %s" % (t, hir.show(wild) if wild else None))
+        judge_numeric_impl(ck, lib, b, t, RADIX, lambda tt: "core::num::%s::from_str_radix" % tt, "int")
     ck.floor("C03-V", "integer conversion impls", n, 10)
     for t in ("f32", "f64"):
         b = impl_fn(lib, "&microscpi::value::Value<>", t) or impl_fn(lib, "&microscpi::value::Value", t)
         if not ck.anchor("C03-V", "TryInto<%s> for &Value" % t, b):
             continue
-        ck.fn(b["def"])
-        arms, wild = arms_of(b)
-        ok = arms is not None and len(arms) == 1 and [a[0] for a in arms[0][0]] == ["Decimal"]
-        c = conversion(arms[0][1]) if ok else {}
-        ok = ok and c.get("kind") == "parse" and c["ty"] == t and c["arg"] == arms[0][0][0][1][1] and c["fail"] == "NumericDataError" and c["casts"] == 0
-        ck.judge(ok, "C03-V", "float:%s:decimal" % t, "Decimal -> str::parse::<%s>, failure -> NumericDataError" % t, "TryInto<%s>: %s" % (t, c or [a[0] for a in (arms or [])]))
-        ck.judge(wild is not None and err_ctor(wild) == "DataTypeError", "C03-V", "float:%s:default" % t, "other kinds -> DataTypeError", "default arm of TryInto<%s> is %s" % (t, hir.show(wild) if wild else None))
+        judge_numeric_impl(ck, lib, b, t, {"Decimal": None}, lambda tt: "core::str::parse::<%s>" % tt, "float")
     # bool
     b = impl_fn(lib, "&microscpi::value::Value<>", "bool") or impl_fn(lib, "&microscpi::value::Value", "bool")
     if ck.anchor("C03-V", "TryInto<bool> for &Value", b):
-        ck.fn(b["def"])
-        arms, wild = arms_of(b)
+        ex, ps = conv_paths(ck, lib, b)
         table = {}
         bad = []
-        for alts, body in arms or []:
-            c = conversion(body)
-            val = None
-            if c.get("kind") == "ok" and c["value"].get("k") == "Lit" and c["value"]["lit"]["t"] == "bool":
-                val = c["value"]["lit"]["v"]
-            for (name, sub) in alts:
-                if sub and sub[0] == "lit" and val is not None:
-                    table[(name, sub[1])] = val
+        default_ok = None
+        for x in ex:
+            v, neg = variant_of_self(x, ps)
+            lits = [c for c in x.conds if c[0] == "eq" and c[3] and c[1][0] == "payload" and c[1][1] == ("param", "self") and c[2][0] == "lit"]
+            val = x.value
+            if val[0] == "ctor" and val[1] == OK and val[2][0][0] == "lit" and val[2][0][1] == "bool":
+                if v and len(lits) == 1 and not x.calls():
+                    table[(v, lits[0][2][2])] = val[2][0][2]
                 else:
-                    bad.append((name, sub, c.get("kind")))
+                    bad.append(pathsum.show_exit(x)[:200])
+            elif val == ("ctor", ERR, (("ctor", E + "IllegalParameterValue", ()),)):
+                default_ok = True if default_ok is None else default_ok
+            else:
+                default_ok = False
+                bad.append(pathsum.show_exit(x)[:200])
         need = {("Characters", "ON"): True, ("Decimal", "1"): True, ("Characters", "OFF"): False, ("Decimal", "0"): False}
         truthy = {"ON", "1", "TRUE", "YES"}
         falsy = {"OFF", "0", "FALSE", "NO"}
-        wrong = [(k, v) for k, v in table.items() if (str(k[1]).upper() in truthy and v is False) or (str(k[1]).upper() in falsy and v is True) or str(k[1]).upper() not in truthy | falsy]
-        ok = all(table.get(k) == v for k, v in need.items()) and not wrong and not bad
-        ck.judge(ok, "C03-V", "bool:table", "bool literals: %s" % sorted((k[1], v) for k, v in table.items()),
-                 "bool literal table %s: missing %s, on the wrong side / unknown %s, non-literal arms %s" % (sorted((k, v) for k, v in table.items()), [k for k, v in need.items() if table.get(k) != v], wrong, bad))
-        ck.judge(wild is not None and err_ctor(wild) == "IllegalParameterValue", "C03-V", "bool:default", "anything else -> IllegalParameterValue", "default arm is %s" % (hir.show(wild) if wild else None))
+        wrong = [(k, v_) for k, v_ in table.items() if (str(k[1]).upper() in truthy and v_ is False) or (str(k[1]).upper() in falsy and v_ is True) or str(k[1]).upper() not in truthy | falsy]
+        ok = all(table.get(k) == v_ for k, v_ in need.items()) and not wrong and not bad
+        ck.judge(ok, "C03-V", "bool:table", "bool literals: %s" % sorted((k[1], v_) for k, v_ in table.items()),
+                 "bool literal table %s: missing %s, on the wrong side / unknown %s, other paths %s" % (sorted((k, v_) for k, v_ in table.items()), [k for k, v_ in need.items() if table.get(k) != v_], wrong, bad[:2]))
+        ck.judge(default_ok is True, "C03-V", "bool:default", "anything else -> IllegalParameterValue", "a non-boolean literal does not end in Err(IllegalParameterValue)")
     # &str / &[u8]
     for t, want in (("&str", "String"), ("&[u8]", "Arbitrary")):
         b = impl_fn(lib, "&microscpi::value::Value<>", t) or impl_fn(lib, "&microscpi::value::Value", t)
         if not ck.anchor("C03-V", "TryInto<%s> for &Value" % t, b):
             continue
-        ck.fn(b["def"])
-        arms, wild = arms_of(b)
-        ok = arms is not None and len(arms) == 1 and [a[0] for a in arms[0][0]] == [want]
-        if ok:
-            c = conversion(arms[0][1])
-            ok = c.get("kind") == "ok" and hir.local_id(c["value"]) == arms[0][0][0][1][1] and c["casts"] == 0
-        ck.judge(ok, "C03-V", "ref:%s" % t, "%s accepts only %s and delivers the payload itself" % (t, want), "TryInto<%s>: arms %s" % (t, [a[0] for a in (arms or [])]))
-        ck.judge(wild is not None and err_ctor(wild) == "DataTypeError", "C03-V", "ref:%s:default" % t, "other kinds -> DataTypeError", "default arm is %s" % (hir.show(wild) if wild else None))
+        ex, ps = conv_paths(ck, lib, b)
+        got = set()
+        for i, x in enumerate(ex):
+            v, neg = variant_of_self(x, ps)
+            if x.value[0] == "ctor" and x.value[1] == OK:
+                okp = v == want and x.value == ("ctor", OK, (("payload", ("param", "self"), V + want, 0),)) and not x.calls()
+                got.add(v)
+                ck.judge(okp, "C03-V", "ref:%s:%s#%d" % (t, v, i), "%s delivered as the payload itself" % want, "TryInto<%s> delivers %s for %s" % (t, show_term(x.value), v), data=pathsum.show_exit(x)[:400])
+            else:
+                ck.judge(x.value == ("ctor", ERR, (("ctor", E + "DataTypeError", ()),)) and v != want, "C03-V", "ref:%s:other#%d" % (t, i), "other kinds -> DataTypeError",
+                         "TryInto<%s> answers %s for %s" % (t, show_term(x.value), v or "other kinds"))
+        ck.judge(got == {want}, "C03-V", "ref:%s:accepts" % t, "%s accepts only %s" % (t, want), "TryInto<%s> accepts %s" % (t, sorted(got)))
     # by-value impls delegate to the by-reference impl of the same target
     n = 0
     for b in lib.facts["bodies"]:
